@@ -771,6 +771,17 @@ impl TypeLayout {
         matches!(me, TypeLayout::Map(..))
     }
 
+    /// Is this a map, or a list / optional with a map inside? (Such a value cannot be hashed.)
+    pub fn contains_map(&self) -> bool {
+        match self.get_type_recursively() {
+            TypeLayout::Map(..) => true,
+            TypeLayout::Optional(Some(inner)) => inner.contains_map(),
+            TypeLayout::List(ListType::Open(inner)) => inner.contains_map(),
+            TypeLayout::List(ListType::Mixed(types)) => types.iter().any(|ty| ty.contains_map()),
+            _ => false,
+        }
+    }
+
     pub fn is_float(&self) -> bool {
         let me = self.get_type_recursively();
 
